@@ -4,7 +4,7 @@ from sim import history
 PROP = 'C08'
 TECHNIQUE = 'deterministic simulation with fault injection: histories with killed snapshots (orphans) and decoys; completeness and confinement of delete/clean'
 LEVEL = 'exploration'
-RULE = ('one case = a seeded history of snapshot / delete / clean by users of several key families, with snapshots killed at a '
+RULE = ('[users are processes per command or long-lived programs that keep one Repository object across commands] one case = a seeded history of snapshot / delete / clean by users of several key families, with snapshots killed at a '
         'seeded backend mutation (orphaned chunks, snapshot object present or not) and decoy objects outside the chunk and '
         'snapshot areas; after delete: no chunk referenced only by the deleted snapshots remains; after clean: the caller '
         'family\'s chunk objects == chunks referenced by remaining snapshots; config, decoys and every object of other families '
